@@ -1,5 +1,5 @@
 import ErrModel.Sem
-import ErrModel.Basic.Redact
+import ErrModel.Basic.RedactT
 /-
   Per-layer safe details (`errbase.GetSafeDetails`, the `SafeDetails()` methods).
   The redacted verbose rendering embedded in a barrier's details is supplied by
@@ -30,15 +30,15 @@ def fillDetails (mark : TMark) (sd : List Str) (acc : List Str) : List Str :=
 
 /-- one context tag as `redactableTagsIterate` builds it:
     `redact.Sprintf("%s%s%v", Safe(k), eq, v)`; kind 0 = unsafe value, 1 = Safe value, 2 = nil -/
-def tagRStr (kv : Str × Str) (kind : Nat) : RStr :=
-  if kind = 2 then assemble [.lit kv.1]
-  else if kind = 1 then assemble [.lit kv.1, .lit (if kv.1.length > 1 then b!"=" else []), .lit kv.2]
-  else assemble [.lit kv.1, .lit (if kv.1.length > 1 then b!"=" else []), .arg kv.2]
+def tagToks (kv : Str × Str) (kind : Nat) : Toks :=
+  if kind = 2 then assembleT [.lit kv.1]
+  else if kind = 1 then assembleT [.lit kv.1, .lit (if kv.1.length > 1 then b!"=" else []), .lit kv.2]
+  else assembleT [.lit kv.1, .lit (if kv.1.length > 1 then b!"=" else []), .arg kv.2]
 
-/-- `redactTags`. -/
+/-- `redactTags`: each tag `.Redact().StripMarkers()` -/
 def redactTags : List (Str × Str) → List Nat → List Str
   | [], _ => []
-  | kv :: r, ks => redactStrip (tagRStr kv (ks.headD 0)) :: redactTags r ks.tail
+  | kv :: r, ks => stripT (redactT (tagToks kv (ks.headD 0))) :: redactTags r ks.tail
 
 theorem redactTags_eq_nil (t : List (Str × Str)) (k : List Nat) : redactTags t k = [] ↔ t = [] := by
   cases t <;> simp [redactTags]
